@@ -3,6 +3,7 @@ use serde_json::Value;
 
 pub mod bddsweep;
 pub mod c02;
+pub mod c09;
 
 pub struct Prop {
     pub id: &'static str,
@@ -13,5 +14,6 @@ pub struct Prop {
 pub fn registry() -> Vec<Prop> {
     vec![
         Prop { id: "C02", run: c02::run, replay: c02::replay },
+        Prop { id: "C09", run: c09::run, replay: c09::replay },
     ]
 }
